@@ -12,7 +12,7 @@ from .world import CLASSES, FUNC_PREDS, CLASS_PREDS, dec
 from .ast import OPS
 
 from entity_query_language import (an, the, entity, set_of, let, and_, or_, not_, contains, in_, symbolic_mode,
-                                   From, flatten, for_all, HasType)
+                                   From, flatten, for_all, HasType, rule_mode)
 
 
 @dataclass
@@ -125,6 +125,14 @@ def declare_vars(case, objs, containers=None):
                 shared[j] = make_container(objs, doms[j], kind)
             cont = shared[j]
         cls = CLASSES[vd.get("type", "Ent")]
+        if vd.get("decl") == "registry":
+            # no domain: the variable ranges over the registry of instances, optionally with field constraints; built in
+            # query mode or in rule mode (where the constraints are expanded lazily at the first evaluation)
+            with (rule_mode() if vd.get("in_rule") else symbolic_mode()):
+                v = cls(**{f: dec(c) for f, c in vd.get("kw", [])})
+            V.append(v)
+            conts.append(None)
+            continue
         if vd.get("decl", "let") == "let":
             v = let(cls, domain=cont)
         else:
